@@ -95,7 +95,7 @@ fn plan(prop: &str) -> Option<Plan> {
     let p = match prop {
         "C01" => Plan {
             level: "exploration",
-            engines: vec![("regsim", 160_000, 16_000_000), ("regsim@min", 40_000, 4_000_000), ("tablesim", 100_000, 8_000_000), ("wiresim", 10_000, 600_000)],
+            engines: vec![("regsim", 160_000, 16_000_000), ("regsim@min", 40_000, 4_000_000), ("tablesim", 100_000, 8_000_000), ("wiresim", 40_000, 1_500_000)],
             rule: "regsim runs are generated from the run seed (type graph over 32 node types and a fixed corpus, client scripts, simulated network order, consumer chain); a run is non-trivial when its final registry is non-empty and it had at least two deliveries or a non-empty consumer chain; tablesim runs count when a duplicate arrived after unrelated insertions; distinct = distinct scenario hashes among the non-trivial runs",
         },
         "C02" => Plan {
